@@ -95,12 +95,37 @@ class Interp:
         chain = list(chain)
         cur = body
         while chain:
-            if not any(st[0] == "param" for st in subterms(t)):
+            if not any(st[0] in ("param", "upvar") for st in subterms(t)):
                 break
             cs = chain.pop()
             caller = self.prog.by_path[cs[0]]
             if cur.is_closure():
-                break
+                # a closure run synchronously by a std combinator of its creating body: captured
+                # values become the creating body's terms, the closure's own parameters (the
+                # combinator's items) become opaque `cparam`s
+                up = {}
+                okc = True
+                for st in subterms(t):
+                    if st[0] == "upvar" and st[1] not in up:
+                        r = self.prog.upvar_term(cur, st[1])
+                        if r is None or r[0].path != caller.path:
+                            okc = False
+                            break
+                        up[st[1]] = r[1]
+                if not okc:
+                    break
+                cpath = cur.path
+
+                def subc(m, up=up, cpath=cpath):
+                    if m[0] == "upvar":
+                        return up[m[1]]
+                    if m[0] == "param" and m[1] >= 2:
+                        return ("cparam", cpath, m[1])
+                    return m
+
+                t = self.expand(rebuild(t, subc))
+                cur = caller
+                continue
             bp = self.prog.bp(caller)
             site_term = caller.blocks[cs[1]]["term"]
             args = [bp.arg_term(cs[1], i) for i in range(len(site_term["args"]))]
